@@ -521,6 +521,24 @@ class modict(odict):
     def copy(self):
         return self.__class__(self)
 
+    def sift(self, fields=None):
+        """
+        Return modict of the items keyed by the field names in the optional fields
+        sequence, in that order, each with all the values of its item in self
+        If fields is not provided then return copy of self
+        Raises KeyError if no entry for a given field name
+        """
+        if fields is None:
+            return self.copy()
+
+        result = self.__class__()
+        for key in fields:
+            vals = dict.__getitem__(self, key)  # KeyError if no entry
+            if key not in result:
+                for val in vals:
+                    result.append(key, val)
+        return result
+
     def get(self, key, default=None, index=-1, kind=None):
         """
         Return the most recent value for a key, that is, the last element
